@@ -16,6 +16,7 @@ fn quiet<R>(f: impl FnOnce() -> R + std::panic::UnwindSafe) -> Result<R, String>
 #[test]
 fn sketch_new_every_width_works() {
     if !only("sketch_new_every_width_works") { return; }
+    guarded("sketch_new_every_width_works", || {
     // [C20:sk.new.wf] every accepted width yields a sketch on which increment/estimate are in bounds
     let mut rng = Rng::new(1);
     let mut widths: Vec<u64> = (1..=70).collect();
@@ -36,11 +37,13 @@ fn sketch_new_every_width_works() {
             _ => {}
         }
     }
+    });
 }
 
 #[test]
 fn row_counters_saturate_and_do_not_spill() {
     if !only("row_counters_saturate_and_do_not_spill") { return; }
+    guarded("row_counters_saturate_and_do_not_spill", || {
     let mut rng = Rng::new(2);
     for _ in 0..iters(2000) {
         let width = 1 + rng.below(8);
@@ -69,11 +72,13 @@ fn row_counters_saturate_and_do_not_spill() {
             }
         }
     }
+    });
 }
 
 #[test]
 fn tinylfu_never_undercounts_between_resets() {
     if !only("tinylfu_never_undercounts_between_resets") { return; }
+    guarded("tinylfu_never_undercounts_between_resets", || {
     let mut rng = Rng::new(3);
     for _ in 0..iters(300) {
         let n = 1 + rng.below(70) as usize;
@@ -131,11 +136,13 @@ fn tinylfu_never_undercounts_between_resets() {
             }
         }
     }
+    });
 }
 
 #[test]
 fn bloom_bits_are_independent_cells() {
     if !only("bloom_bits_are_independent_cells") { return; }
+    guarded("bloom_bits_are_independent_cells", || {
     // [C14] set(i) makes exactly bit i visible; add(h) => contains(h); false-positive rate near the target
     let mut rng = Rng::new(4);
     for cap in [10usize, 100, 1000] {
@@ -177,4 +184,5 @@ fn bloom_bits_are_independent_cells() {
             return;
         }
     }
+    });
 }
